@@ -73,7 +73,7 @@ class Context(object):
     def command(self, lun, task, dataout, datain):
         rec = {"cdb": task.cdb, "dir": task.dir, "xferlen": task.xferlen, "doutlen": len(dataout),
                "dinlen": len(datain), "dout": bytes(dataout), "lun": lun, "connected": self.connected,
-               "target": getattr(self, "targetname", None),
+               "target": getattr(self, "targetname", None), "initiator": self.initiator_name,
                "din_id": id(datain), "dout_id": id(dataout)}
         LOG.append(("command", rec))
         status, sense = (0, None) if TARGET is None else TARGET(task.cdb, dataout, datain)
